@@ -20,7 +20,7 @@ def targets():
     return K.SOLVER_TARGETS + list(K.GATES) + K.UPDATE_TARGETS + K.SYN_TARGETS
 
 
-def collect(ck: Check, outs, regmod="jxverif.kernels"):
+def collect(ck: Check, outs, regmod="jxverif.kernels", replay=None):
     import importlib
     REG = importlib.import_module(regmod).REG
     for o in outs:
@@ -50,12 +50,16 @@ def collect(ck: Check, outs, regmod="jxverif.kernels"):
                 ok = False
                 witness = {k: _num(v) for k, v in r["model"].items()}
                 kf = ck.match_known(r["name"], witness)
-                rp = common.replay_kernel(REG[t], r["name"], r["model"])
+                extra = {}
+                if replay is not None and "init_state" in t:
+                    rp, extra = replay(t, r)
+                else:
+                    rp = common.replay_kernel(REG[t], r["name"], r["model"])
                 if kf:
                     ck.known_finding(kf)
                     r["status"] = "known-finding"
                     continue
-                ck.violation(r["name"], {"solver": r["backend"], "solver_output": r["detail"], "model": r["model"], "replay": rp},
+                ck.violation(r["name"], dict({"solver": r["backend"], "solver_output": r["detail"], "model": r["model"], "replay": rp}, **extra),
                              reproduced=rp.get("reproduced", False))
             elif r["status"] != "proved":
                 ok = False
@@ -73,12 +77,12 @@ def _num(s):
         return s
 
 
-def run_all(ck, tier, ts, canaries, regmod="jxverif.kernels", strict=False, only=None):
+def run_all(ck, tier, ts, canaries, regmod="jxverif.kernels", strict=False, only=None, replay=None):
     """one pool for the contracts and the canaries"""
     args = [(regmod, "REG", t, tier, strict, only, None) for t in ts]
     args += [(regmod, "REG", t, "canary", strict, only, can) for t, can in canaries]
     outs = run_units("jxverif.props.common", "worker_verify", args)
-    collect(ck, outs[:len(ts)], regmod=regmod)
+    collect(ck, outs[:len(ts)], regmod=regmod, replay=replay)
     for (t, can), o in zip(canaries, outs[len(ts):]):
         name = f"{can[0]}: {can[2]!r} -> {can[3]!r}"
         refuted = o[0] == "ok" and (any(r["status"] == "refuted" for r in o[1]["results"]) or o[1]["error_kind"] in ("api", "index"))
